@@ -4,6 +4,7 @@
 mod rng;
 mod sexp;
 mod c02;
+mod c01;
 mod c03;
 mod c05;
 mod c06;
@@ -19,6 +20,8 @@ mod c15;
 mod c16;
 mod c17;
 mod c18;
+mod c19;
+mod c20; pub(crate) use fontc::Error; // (c20 compiles /repo/fontc/src/args.rs, which names crate::Error)
 mod e2e;
 
 use std::io::Write;
@@ -76,8 +79,13 @@ fn main() {
         "c05font" => c05::run_font(&args),
         "c06" => c06::run(&args), "c06glyphs" => c06::run_glyphs(&args), "c06e2e" => c06::run_e2e(&args),
         "c07" => c07::run(&args),
+        "c01" => c01::run(&args),
+        "c01child" => c01::child(&argv[1..]),
         "c08" => c08::run(&args),
         "c08mal" => c08::run_mal(&args),
+        "c08e2e" => c08::run_e2e(&args),
+        "c08one" => c08::run_one(&args),
+        "c08e2eone" => c08::run_e2e_one(&args),
         "c10" => c10::run(&args), "c10e2e" => c10::run_e2e(&args),
         "c09" => c09::run(&args), "c09e2e" => c09::run_e2e(&args), "c09wit" => c09::run_witness(&args),
         "c11" => c11::run("c11", &args), "c11x" => c11::run("c11x", &args), "c11fea" => c11::run_file(&args),
@@ -90,7 +98,9 @@ fn main() {
         "c13inc" => c13::run_inc(&args),
         "c03e2e" => c03::run("c03e2e", &args),
         "c04e2e" => c03::run("c04e2e", &args),
+        "c19e2e" => c19::run("c19e2e", &args), "c19e2e_rel" => c19::run("c19e2e_rel", &args), "c19big" => c19::run("c19big", &args), "c19big_rel" => c19::run("c19big_rel", &args), "c19obs" => c19::run_obs("c19obs", &args), "c19bigobs" => c19::run_obs("c19bigobs", &args),
         "c14names" | "c14paths" | "c14emit" => c14::run(argv[0].as_str(), &args),
+        "c20plist" => c20::run_plist(&args), "c20args" => c20::run_args(&args), "c20e2e" => c20::run_e2e(&args), "c20child" => c20::run_child(&argv[1..]),
         "c15graph" => c15::run_graph(&args), "c15mut" => c15::run_mut(&args), "c15child" => c15::run_child(&args),
         other => {
             eprintln!("unknown stream {other}");
